@@ -171,11 +171,14 @@ pub fn scenario(name: &str, params: &Value) -> Scenario {
                 .filter(|o| matches!(o.spec, OpSpec::Subscribe(_)))
                 .count();
             if nsub < 2 {
-                e.push(Ev::Start(OpSpec::Subscribe(SubscribeSpec::simple(if nsub == 0 {
-                    "s/a"
+                e.push(Ev::Start(OpSpec::Subscribe(if nsub == 0 {
+                    SubscribeSpec::simple("s/a")
                 } else {
-                    "s/b"
-                }))));
+                    SubscribeSpec {
+                        filters: vec![FilterSpec::plain("s/b"), FilterSpec::plain("s/c/#")],
+                        user_props: vec![],
+                    }
+                })));
             }
             let nunsub = s
                 .m
@@ -187,6 +190,26 @@ pub fn scenario(name: &str, params: &Value) -> Scenario {
                 e.push(Ev::Start(OpSpec::Unsubscribe(UnsubscribeSpec::simple("s/a"))));
             }
             e.extend(broker_acks(s, false, false));
+            // SUBACKs that refuse every filter, or all but the first: the stream of that call must
+            // work all the same (a broker still forwards what matches the granted filter; and the
+            // property does not let a refusal end or detach a stream)
+            for i in 0..s.m.ops.len() {
+                if !matches!(s.m.ops[i].spec, OpSpec::Subscribe(_)) {
+                    continue;
+                }
+                if let Some(SPacket::Suback { pid, props, reasons }) = s.ack_for(i, 0x80, "") {
+                    let mut partial = reasons.clone();
+                    partial[0] = 0x01;
+                    for r in partial.iter_mut().skip(1) {
+                        *r = 0x87;
+                    }
+                    if partial.len() > 1 {
+                        e.push(Ev::Deliver(SPacket::Suback { pid, props: props.clone(), reasons: partial }));
+                    } else {
+                        e.push(Ev::Deliver(SPacket::Suback { pid, props, reasons }));
+                    }
+                }
+            }
             // stream() / drop of the response
             for i in 0..s.m.ops.len() {
                 if let (OpSpec::Subscribe(_), St::Done, Some(sb)) =
@@ -217,12 +240,24 @@ pub fn scenario(name: &str, params: &Value) -> Scenario {
                     variants.push(vec![ids[1], ids[0], ids[1]]);
                     variants.push(vec![ids[0], 7, ids[1], ids[0]]);
                 }
-                for v in variants {
+                // a QoS 1 message repeated by the broker (DUP = 1, same packet identifier): QoS 1 is
+                // at-least-once, every copy is a PUBLISH of its own and is yielded
+                e.push(Ev::Deliver(inbound(1, true, 100, &[ids[0]], &format!("d{}", n))));
+                if ids.len() == 2 {
+                    e.push(Ev::Deliver(inbound(1, true, 100, &[ids[1], ids[0]], &format!("d{}", n))));
+                }
+                for (vi, v) in variants.into_iter().enumerate() {
                     for q in 0..3u8 {
+                        // every QoS for the plain shapes (absent, one identifier, both); the unknown
+                        // and the repeated-identifier shapes rotate through the QoS levels
+                        let plain = v.is_empty() || (v.len() == 1 && v[0] != 7) || (v.len() == 2 && v[0] != v[1]);
+                        if !plain && q != (vi % 3) as u8 {
+                            continue;
+                        }
                         e.push(Ev::Deliver(inbound(
                             q,
                             false,
-                            100 + n as u16,
+                            101 + n as u16,
                             &v,
                             &format!("m{}", n),
                         )));
